@@ -20,7 +20,12 @@ open Casbin.Sync
     operation outside straight-line code) -/
 theorem lockTable_disciplined :
     Facts.nestedLockOps = 0 ∧ ∀ w ∈ Facts.lockTable, w.ok Facts.lockTable = true := by
-  sorry
+  have hall : Facts.lockTable.all (fun w => w.ok Facts.lockTable) = true := by decide +kernel
+  exact ⟨by decide, fun w hw => List.all_eq_true.mp hall w hw⟩
+
+/-- every unlock in the current source is deferred: a panic inside a wrapper (a failing adapter,
+    a user callback) cannot leave the lock held (finding D34, repaired) -/
+theorem unlocks_deferred : Facts.explicitUnlocks = [] := by decide
 
 /-- a thread's program: any sequence of well-locked bodies -/
 def Disciplined (p : List Ev) : Prop := ∃ bodies : List (List Ev), (∀ b ∈ bodies, wellLocked b = true) ∧ p = bodies.flatten
@@ -28,25 +33,28 @@ def Disciplined (p : List Ev) : Prop := ∃ bodies : List (List Ev), (∀ b ∈ 
 /-- the lock invariant in every reachable configuration: a writer excludes readers -/
 theorem mutual_exclusion (progs : List (List Ev)) (h : ∀ p ∈ progs, Disciplined p)
     (sched : List Act) (c : Config) (hr : run (initial progs) sched = some c) :
-    ∀ t, c.lock.writer = some t → c.lock.readers = [] := by
-  sorry
+    ∀ t, c.lock.writer = some t → c.lock.readers = [] :=
+  (inv_run (inv_initial progs (disciplined_wellLocked h)) hr).excl
 
 /-- **no data race**: no reachable configuration has two threads about to access the shared
     state with one of them writing — for any number of threads, any programs made of well-locked
     bodies, any schedule -/
 theorem race_free (progs : List (List Ev)) (h : ∀ p ∈ progs, Disciplined p)
-    (sched : List Act) (c : Config) (hr : run (initial progs) sched = some c) : ¬ racy c := by
-  sorry
+    (sched : List Act) (c : Config) (hr : run (initial progs) sched = some c) : ¬ racy c :=
+  inv_not_racy (inv_run (inv_initial progs (disciplined_wellLocked h)) hr)
 
 /-- **no deadlock**: in every reachable configuration with work left some thread can take a step -/
 theorem deadlock_free (progs : List (List Ev)) (h : ∀ p ∈ progs, Disciplined p)
-    (sched : List Act) (c : Config) (hr : run (initial progs) sched = some c) : ¬ deadlocked c := by
-  sorry
+    (sched : List Act) (c : Config) (hr : run (initial progs) sched = some c) : ¬ deadlocked c :=
+  inv_not_deadlocked (inv_run (inv_initial progs (disciplined_wellLocked h)) hr)
 
 /-- programs built from the extracted table are disciplined -/
 theorem table_programs_disciplined (calls : List Wrapper) (h : ∀ w ∈ calls, w ∈ Facts.lockTable) :
     Disciplined (calls.map Wrapper.prog).flatten := by
-  sorry
+  refine ⟨calls.map Wrapper.prog, ?_, rfl⟩
+  intro b hb
+  rcases List.mem_map.mp hb with ⟨w, hw, rfl⟩
+  exact ok_wellLocked (lockTable_disciplined.2 w (h w hw))
 
 /-- hence: any number of goroutines calling any mix of the wrapped methods, under any schedule,
     never reach a racy or deadlocked configuration -/
@@ -55,19 +63,30 @@ theorem synced_enforcer_safe (threads : List (List Wrapper))
     (sched : List Act) (c : Config)
     (hr : run (initial (threads.map (fun calls => (calls.map Wrapper.prog).flatten))) sched = some c) :
     ¬ racy c ∧ ¬ deadlocked c := by
-  sorry
+  have hd : ∀ p ∈ threads.map (fun calls => (calls.map Wrapper.prog).flatten), Disciplined p := by
+    intro p hp
+    rcases List.mem_map.mp hp with ⟨calls, hc, rfl⟩
+    exact table_programs_disciplined calls (h calls hc)
+  exact ⟨race_free _ hd sched c hr, deadlock_free _ hd sched c hr⟩
 
 /-! ### why each clause of the discipline is there (and that the hypotheses are not vacuous) -/
 
 /-- a mutating callee under the read lock races with a second caller -/
 theorem write_under_rlock_races :
-    ∃ sched c, run (initial [[.acq .R, .acc true, .rel], [.acq .R, .acc true, .rel]]) sched = some c ∧ racy c := by
-  sorry
+    ∃ sched c, run (initial [[.acq .R, .acc true, .rel], [.acq .R, .acc true, .rel]]) sched = some c ∧ racy c :=
+  ⟨[.go 0, .go 1], _, rfl, 0, 1, true, true, _, _, by decide, rfl, rfl, Or.inl rfl⟩
 
 /-- re-entrant read locking deadlocks against a waiting writer (Go's RWMutex has writer preference) -/
 theorem reentrant_rlock_deadlocks :
     ∃ sched c, run (initial [[.acq .R, .acq .R, .rel, .rel], [.acq .W, .rel]]) sched = some c ∧ deadlocked c := by
-  sorry
+  refine ⟨[.go 0, .announce 1], _, rfl, ?_, ?_⟩
+  · intro hf
+    exact absurd (hf [.acq .R, .rel, .rel] (by decide)) (by decide)
+  · intro t
+    match t with
+    | 0 => rfl
+    | 1 => rfl
+    | t + 2 => rfl
 
 /-- the two-section LoadPolicy and a writer, run to completion -/
 example : ∃ sched c, run (initial [[.acq .R, .acc false, .rel, .acq .W, .acc true, .rel], [.acq .W, .acc true, .rel]]) sched = some c
